@@ -3,7 +3,7 @@
 # sed edit of one file of /repo; the named function must NOT verify any more on a scratch copy.
 # A mutation that still verifies is an engine/contract hole (vacuity, too weak a contract).
 # usage: selftest/run.sh            (about 15 minutes; needs bin/govc)
-# The 51 confirmed agent-written changes under /verif/seeded are the second half of the corpus
+# The 53 confirmed agent-written changes under /verif/seeded are the second half of the corpus
 # (seeded_run.sh <name>).
 cd /verif
 fail=0
@@ -35,4 +35,5 @@ run qr/unicode.go 's/res.AddByte(b)$/res.AddByte(b ^ 1)/' qr.encodeUnicode
 run utils/bitlist.go 's/for c > 0 {/for c > 7 {/' 'utils.(*BitList).IterateBytes$1'
 run aztec/encoder.go 's/modeMessage.AddBits(layers-1, 2)/modeMessage.AddBits(layers, 2)/' aztec.generateModeMessage
 run utils/galoisfield.go 's/} else if a == 0 {/} else if a == 1 {/' 'utils.(*GaloisField).Divide'
+run qr/encoder.go 's/return encodeUnicode$/return nil/' 'qr.(Encoding).getEncoder'
 exit $fail
